@@ -17,7 +17,8 @@ LEVEL_TEXT = 'Contract on the real to_rfi evaluated on every call (direct, repos
 TECHNIQUE = 'runtime contract on to_rfi with keyword-derived law oracle + call-history equivalence checker'
 RULE = ('generated integer/float samples and plain arrays x channel subsets/orderings (exhaustive for <=4 channels in '
         'the subset block) x name/position/mixed spelling x per-setting override-vs-file; non-trivial = at least one '
-        'log channel and one linear channel converted or an override used; distinct = digest(sample file, call)')
+        'log channel and one linear channel converted or an override used; distinct = digest(sample file, call)'
+        ' Also: zero gains, samples without events, derived samples, files recording a channel name twice (by position), override lists reused by the caller, tuple/ndarray argument forms.')
 ASSUMPTIONS = ['law evaluated by the oracle in float64 with rtol 1e-12 (evaluation order only)',
                'oracle parses $PnE/$PnR/$PnG itself; a1=0 with a0!=0 read as 1']
 MIN_CHECKS = {'quick': 8000, 'thorough': 150000}
